@@ -48,6 +48,11 @@ func TestProposalBudgets(t *testing.T) {
 		era := statekit.Era(rapid.SampledFrom(eras()).Draw(t, "era"))
 		prof := statekit.DrawProfile(t, era)
 		prof.RecordSponsorStart = statekit.Far
+		// longer terms: proposals are only admitted outside the voting period
+		prof.DutyPeriod = prof.VotingPeriod + uint32(rapid.IntRange(14, 34).Draw(t, "dutyextra"))
+		// agreement of one or two members within 3-6 blocks, so that proposals get through
+		prof.CRAgreementCount = uint32(rapid.IntRange(1, 2).Draw(t, "agreement"))
+		prof.ProposalCRVotingPeriod = uint32(rapid.IntRange(3, 6).Draw(t, "crvoting"))
 		// penalties are not the subject here; keep the producers staffed
 		k := statekit.New(prof)
 		defer func() { k.Close() }()
@@ -55,7 +60,7 @@ func TestProposalBudgets(t *testing.T) {
 		g.DrawLazy(t)
 		g.AddKinds(statekit.CRKinds())
 		g.AddKinds(statekit.C29Kinds())
-		g.MaxTxs = 4
+		g.MaxTxs = 5
 		base := map[string]int{}
 		for kk, v := range g.Kinds {
 			base[kk] = v
@@ -94,7 +99,14 @@ func TestProposalBudgets(t *testing.T) {
 		acceptedWithdraws, rejectedWithdraws, acceptedProposals, secondWithdrawal := 0, 0, 0, false
 		maxWithdrawalsOfOne := 0
 		electedBlocks, allowedBlocks, firstCommittee := 0, 0, uint32(0)
-		for k.Height < maxHeight && dead == "" {
+		for dead == "" {
+			// the history runs `extra` blocks past the first seated committee
+			if firstCommittee != 0 && k.Height >= firstCommittee+uint32(extra) {
+				break
+			}
+			if firstCommittee == 0 && k.Height >= maxHeight {
+				break
+			}
 			h := k.Height + 1
 			events = nil
 			tune(g, base, prof, h)
@@ -260,6 +272,27 @@ func tune(g *statekit.Gen, base map[string]int, prof statekit.Profile, h uint32)
 	}
 	if unclaimed > 0 {
 		g.Kinds["claimnode"] = base["claimnode"] * 6
+	}
+	if g.K.Committee.IsInElectionPeriod() {
+		registered, agreed, payable := 0, 0, 0
+		for _, p := range g.K.Proposals() {
+			switch p.Status {
+			case crstate.Registered:
+				registered++
+			case crstate.VoterAgreed:
+				agreed++
+			}
+			if g.K.Committee.AvailableWithdrawalAmount(p.Proposal.Hash) > 0 {
+				payable++
+			}
+		}
+		g.Kinds["proposal"] = base["proposal"] * 4
+		if registered+agreed >= 3 {
+			g.Kinds["proposal"] = base["proposal"]
+		}
+		g.Kinds["review"] = base["review"] * (1 + 4*minInt(registered, 3))
+		g.Kinds["tracking"] = base["tracking"] * (1 + 3*minInt(agreed, 2))
+		g.Kinds["withdraw"] = base["withdraw"] * (1 + 3*minInt(payable+agreed, 3))
 	}
 }
 
